@@ -37,6 +37,8 @@ Definition run_find_pairs (rs : list res3) (order : list (nat * nat)) : val :=
   VL [vbool (po_near o);
       vlist (fun p => match p with (i, j, lw, sa) => VL [vnat i; vnat j; vstr lw; match sa with Some s => vstr s | None => VN end] end) (po_pairs o);
       vlist vtriple (po_bph o); vlist vtriple (po_br o)].
+Definition run_backbone_contacts (rs : list res3) (order : list (nat * nat)) : val :=
+  let o := find_pairs rs order in VL [vbool (po_near o); vlist vtriple (po_bph o); vlist vtriple (po_br o)].
 Definition run_find_stackings (rs : list res3) (order : list (nat * nat)) : val :=
   let o := find_stackings rs order in
   VL [vbool (so_near o); vlist (fun p => match p with (i, j, t) => VL [vnat i; vnat j; VS t] end) (so_stackings o)].
